@@ -313,7 +313,7 @@ func genCase(t *rapid.T) Case {
 
 func TestTotal(t *testing.T) {
 	pbt.Run(t, pbt.Sub[Case]{
-		Name: "total", Quick: 400000, Thorough: 8000000,
+		Name: "total", Quick: 1200000, Thorough: 12000000,
 		Gen: genCase, Check: check, Precommit: true,
 	})
 }
